@@ -142,6 +142,7 @@ def run(ctx):
                     probs.append("the address returned is not the table entry")
         (ctx.bad if probs else ctx.ok)("D-TABLE", "D-TABLE:%s::get_mapping" % owner, body.span, "; ".join(probs) if probs else "get_mapping returns the entry stored under `name`")
 
+    d_source(ctx, prog, gh)
     # ---------------------------------------------------------------- D-ECHO
     cr = prog.method("DnsServer", "create_response")
     probs = []
@@ -204,6 +205,46 @@ def run(ctx):
                         o |= dep.origins(st, op, at=K.at_stmt(st, bb, s))
                     okk = dep.has_field(o, "DnsServer", "name_to_ip")
     (ctx.ok if okk else ctx.bad)("D-ECHO", "D-ECHO:DnsServer::start", st.span, "each query task is given self.name_to_ip" if okk else "query tasks are not given the server's own name table")
+
+
+def d_source(ctx, prog, gh):
+    """D-SOURCE: get_host_by_name reduced to a formula; every way it can return an address is a lookup of the name asked
+    in the client's own table (which only ever holds answers of the server, D-TABLE).  An address manufactured any other
+    way (parsed out of the name, a default, the previous answer) is not "the address registered for that name"."""
+    from .. import symx as S
+    try:
+        ex = S.Extractor(prog, (), effects=True, max_nodes=400000)
+        t = ex.run(gh, S.params_of(gh))
+    except S.Unsupported as e:
+        ctx.bad("D-SOURCE", "D-SOURCE:get_host_by_name", gh.span, "get_host_by_name cannot be reduced to a formula (%s)" % e)
+        return
+    def is_lookup(x):
+        return x[0] == "call" and x[1].endswith("::get_mapping") and "dns_client" in x[1] and len(x[2]) == 2 and \
+            S.atoms(x[2][0], lambda y: y[0] == "field" and y[2] == "self") and S.atoms(x[2][1], lambda y: y[0] == "field" and y[2] == "name")
+    probs, n_ok = [], 0
+    for conds, leaf in S.ok_paths(t, lambda x: True):
+        if leaf[0] in ("unreachable", "never", "stop"):
+            continue
+        if leaf[0] == "agg" and leaf[1].endswith("Result::Err"):
+            continue
+        if leaf[0] == "call" and leaf[1].endswith("::from_residual"):
+            continue
+        if is_lookup(leaf):
+            n_ok += 1
+            continue
+        if leaf[0] == "agg" and leaf[1].endswith("Result::Ok") and len(leaf[2]) == 1:
+            v = leaf[2][0]
+            if v[0] == "field" and v[1][0] == "downcast" and is_lookup(v[1][1]):
+                n_ok += 1
+                continue
+            probs.append("returns Ok(%s): an address that is not looked up under the name asked in the client's table%s" % (
+                S.term_str(v)[:160], " (computed from the name itself)" if S.atoms(v, lambda y: y[0] == "field" and y[2] == "name") else ""))
+            continue
+        probs.append("returns %s, which is neither an error nor the table entry of the name asked" % S.term_str(leaf)[:160])
+    if n_ok < 2:
+        probs.append("expected the cached and the freshly stored lookup to be returned, found %d lookup returns" % n_ok)
+    (ctx.bad if probs else ctx.ok)("D-SOURCE", "D-SOURCE:get_host_by_name", gh.span, "; ".join(sorted(set(probs))[:2]) if probs else
+        "%d address-returning paths, each returns get_mapping(self, name)" % n_ok)
 
 
 def st_operand(st):
